@@ -93,10 +93,15 @@ PANIC_PREFIXES = ('core::panicking::', 'std::panicking::', 'core::option::unwrap
                   'core::str::slice_error_fail')
 
 
+class _UnrollAbort(Exception):
+    pass
+
+
 class Interp:
     def __init__(self, facts, inline_bitflags=True):
         self.facts = facts
         Interp.CURRENT = self
+        self._unrolling = {}
         self.fn = {}
         for f in facts['fns']:
             self.fn[f['name']] = f
@@ -645,6 +650,15 @@ class Interp:
                 for i, v in enumerate(lay['variants']):
                     if int(v['discr'], 16) & ((1 << (8 * lay['size'])) - 1) == d:
                         return Enum(t['name'], i, v['name'])
+            if t['name'] == 'core::option::Option' and len(t.get('args', [])) == 1 and t['args'][0].get('k') == 'adt':
+                # Option of a field-less enum of the same size: None lives in a discriminant value the enum does not use (niche)
+                pl = self.find_layout(t['args'][0])
+                if pl and 'variants' in pl and all(v['nfields'] == 0 for v in pl['variants']) and pl['size'] == len(bs) and len(pl['variants']) < (1 << (8 * pl['size'])):
+                    d = int.from_bytes(bs, 'little')
+                    for i, v in enumerate(pl['variants']):
+                        if int(v['discr'], 16) & ((1 << (8 * pl['size'])) - 1) == d:
+                            return Enum('core::option::Option', 1, 'Some', [Enum(t['args'][0]['name'], i, v['name'])])
+                    return Enum('core::option::Option', 0, 'None')
             if lay is None and t['name'].startswith('core::ops::Range') and t.get('args'):
                 # core's range types over an integer (constants such as `const BITS: Range<usize> = 13..15`): start, end[, exhausted]
                 ew = ty_width(t['args'][0])
@@ -715,7 +729,7 @@ class Interp:
                 return Struct('tuple', vals)
             if ak == 'adt':
                 dt = dest_ty if dest_ty.get('k') == 'adt' else {'k': 'adt', 'name': rv['adt'], 'args': []}
-                if self.enum_variants({'k': 'adt', 'name': rv['adt'], 'args': dt.get('args', [])}) is not None:
+                if rv.get('enum') or self.enum_variants({'k': 'adt', 'name': rv['adt'], 'args': dt.get('args', [])}) is not None:
                     return Enum(rv['adt'], rv['vi'], rv['variant'], vals)
                 return Struct(rv['adt'], vals)
             if ak == 'array':
@@ -1341,13 +1355,23 @@ class Interp:
                     if ra and rb:
                         self.narrow(st, a, min(x for x, _ in rb), max(y for _, y in rb))
                         self.narrow(st, b, min(x for x, _ in ra), max(y for _, y in ra))
+                else:
+                    # `x >> k != c` (an `if` chain where a `match` would be): the values of x with that slice leave its range, exactly as
+                    # in the `otherwise` arm of a switch
+                    for pa, pb in ((payload[0], payload[1]), (payload[1], payload[0])):
+                        if all(y in (0, 1) for y in pb) and not all(x in (0, 1) for x in pa):
+                            self.exclude_slice_value(st, BV(len(pa), pa), sum(y << i for i, y in enumerate(pb)))
+                            break
             elif kind == 'ovf':
                 if not truth and payload[4] is not None and payload[4] in st.rng:
                     nm, lo, hi, w = payload[4], payload[5], payload[6], payload[7]
-                    self.narrow(st, BV.sym(w, nm), max(lo, 0), min(hi, (1 << w) - 1))
                     d = st.defs.get(nm)
                     if d is not None:
+                        # no wrap: the result is its defining form as an integer, so bounds on it bound the operands too
                         st.defs[nm] = (d[0], d[1], True)
+                    self.narrow(st, BV.sym(w, nm), max(lo, 0), min(hi, (1 << w) - 1))
+                    if not st.dead:
+                        self.back_propagate(st, nm)
             elif kind == 'pow2':
                 if truth:
                     a = BV(len(payload), payload)
@@ -1369,7 +1393,19 @@ class Interp:
                         return False
                 return True
             st.facts[bit] = 0
-            return True
+            # a conjunction of literals of one symbol covering all its unknown bits from some position up is `x >> k == c`: its negation
+            # removes those values from x's range
+            atoms = list(bit[1])
+            if atoms and all(isinstance(x, tuple) and x[0] == 'v' for x in atoms) and len({x[1] for x in atoms}) == 1:
+                name = atoms[0][1]
+                pos = sorted(x[2] for x in atoms)
+                shift = pos[0]
+                full = self.reduce_bits(st, BV.sym(64, name)).bits
+                up = full[shift + len(pos):]
+                if name in st.rng and pos == list(range(shift, shift + len(pos))) and all(b in (0, 1) for b in up):
+                    c = sum((0 if x[3] else 1) << (x[2] - shift) for x in atoms) | (sum(b << i for i, b in enumerate(up)) << len(pos))
+                    self.exclude_slice_value(st, BV(64, list(full[shift:]) + [0] * shift), c)
+            return not st.dead
         if t == 'or':
             if val == 0:
                 for x in bit[1]:
@@ -1465,6 +1501,19 @@ class Interp:
                 if r and max(y for _, y in r) < (1 << m):
                     x = self.reduce_bits(st, BV.sym(bv.w, nm))
                     self.narrow(st, x, None if lo is None else ((lo + (1 << k) - 1) >> k), None if hi is None else (hi >> k), prop)
+                return
+            # !x on the low m bits (`mask - x` for x <= mask = 2^m - 1, what `MAX - len` is when MAX is all ones): bounds mirror
+            m = 0
+            nm = None
+            while m < bv.w and isinstance(bv.bits[m], tuple) and bv.bits[m][0] == 'v' and bv.bits[m][3] and bv.bits[m][2] == m and (nm is None or bv.bits[m][1] == nm):
+                nm = bv.bits[m][1]
+                m += 1
+            if nm is not None and m > 0 and all(b == 0 for b in bv.bits[m:]):
+                r = st.rng.get(nm)
+                mask = (1 << m) - 1
+                if r and max(y for _, y in r) <= mask:
+                    x = self.reduce_bits(st, BV.sym(bv.w, nm))
+                    self.narrow(st, x, None if hi is None else max(mask - hi, 0), None if lo is None else mask - lo, prop)
             return
         z = bv.low_zeros()
         out = []
@@ -1497,6 +1546,35 @@ class Interp:
             if prop:
                 self.propagate(st)
 
+    def exclude_slice_value(self, st, d, c):
+        """d is bits [shift..) of one symbol (zero-extended) and is known to differ from the constant c"""
+        name, shift = self.slice_of(d)
+        if name is None or shift is None or shift < 0 or st.dead:
+            return
+        full = self.reduce_bits(st, BV.sym(64, name)).bits
+        if not all(d.bits[i] == (full[shift + i] if shift + i < 64 else 0) for i in range(d.w)):
+            return
+        xr = st.rng.get(name)
+        if not xr:
+            return
+        lo, hi = c << shift, ((c + 1) << shift) - 1
+        rem = []
+        for a, b in xr:
+            if hi < a or lo > b:
+                rem.append((a, b))
+                continue
+            if a < lo:
+                rem.append((a, lo - 1))
+            if b > hi:
+                rem.append((hi + 1, b))
+        if rem == list(xr):
+            return
+        if not rem:
+            st.dead = True
+            return
+        st.rng[name] = rem
+        self.narrow(st, BV.sym(64, name), None, None)
+
     def back_propagate(self, st, n):
         """a result symbol defined exactly as c*x + k bounds its operand x"""
         d = st.defs.get(n)
@@ -1505,8 +1583,11 @@ class Interp:
             return
         (xs, xlo, xhi), c = next(iter(d[0].terms.items()))
         k = d[0].const
-        if c <= 0:
+        if c == 0:
             return
+        neg = c < 0
+        if neg:
+            c = -c
         if xlo != 0:
             # c * x[lo..hi] with x's low `lo` bits known zero is (c >> lo) * x
             if c % (1 << xlo) or not all(st.env.get((xs, i)) == 0 for i in range(xlo)):
@@ -1517,8 +1598,13 @@ class Interp:
         if not whole:
             return
         lo2, hi2 = min(a for a, _ in r), max(b for _, b in r)
-        nlo = -(-(lo2 - k) // c)
-        nhi = (hi2 - k) // c
+        if neg:
+            # n = k - c*x (`free = MAX - len`): bounds on n bound x from the other side
+            nlo = -(-(k - hi2) // c)
+            nhi = (k - lo2) // c
+        else:
+            nlo = -(-(lo2 - k) // c)
+            nhi = (hi2 - k) // c
         cur = xr or [(0, (1 << 64) - 1)]
         if nlo > min(a for a, _ in cur) or nhi < max(b for _, b in cur):
             self.narrow(st, self.reduce_bits(st, BV.sym(64, xs)), max(nlo, 0), nhi, prop=False)
@@ -1563,14 +1649,21 @@ class Interp:
         f = self.fn.get(name)
         if f is None:
             raise Unsupported('no such function ' + name)
-        if self.depth == 0:
+        top = self.depth == 0
+        if top:
             Interp.ENTRIES.add(name)
         outs = self.run_fn(f, args, st if st is not None else State(), sub, consts, keep_locals=keep_locals)
+        if top and self.merge_diamonds and not keep_locals and len(outs) > 1:
+            outs = merge_diamonds(outs, self)
         if keep_locals:
             for o in outs:
                 o.frame = self.last_top_frame
         return outs
 
+    unroll_limit = 24      # iterations a loop may be executed concretely before it is summarised instead (0: always summarise)
+    merge_calls = True     # the same join at the return of every inlined call
+    merge_diamonds = True  # join returning paths that differ only in the value of one tested bit (see merge_diamonds below)
+    ASM_TOUCHED = set()  # (function, location) of every inline-asm block an interpretation of this process executed
     ENTRIES = set()      # functions a rule started an interpretation at (audit: which anchors are private names)
     TOUCHED = set()      # names of every function body entered by any interpreter of this process (coverage accounting)
 
@@ -1712,10 +1805,37 @@ class Interp:
             if fr.stop is not None and bi in fr.stop:
                 return [Outcome(st, 'stop', bi)]
             if bi in visiting:
-                return self.loop_reentry(fr, bi, st, visiting)
+                u = self._unrolling.get((fr.id, bi))
+                if u is not None:
+                    # a loop being unrolled: the next iteration starts from this path's own state
+                    u[0] += 1
+                    if u[0] > self.unroll_limit:
+                        raise _UnrollAbort((fr.id, bi))
+                    visiting = u[1]
+                else:
+                    return self.loop_reentry(fr, bi, st, visiting)
             lp = self.loops_of(f)
             if bi in lp:
-                self.havoc_loop(fr, st, bi, lp[bi])
+                key = (fr.id, bi)
+                if key in self._unrolling:
+                    self._unrolling[key][1] = visiting
+                elif self.unroll_limit:
+                    # loops whose trip count the path decides (`for i in 0..8`, a walk over four levels) are executed iteration by
+                    # iteration; when that does not end within the limit the attempt is discarded and the loop is summarised as before
+                    # (header widening, one iteration, `loop` outcome)
+                    self._unrolling[key] = [0, visiting]
+                    try:
+                        outs = self.exec_block(fr, bi, st.clone(), visiting)
+                        if len(outs) <= 4 * self.unroll_limit:
+                            return outs
+                    except _UnrollAbort as ua:
+                        if ua.args[0] != key:
+                            raise
+                    finally:
+                        self._unrolling.pop(key, None)
+                    self.havoc_loop(fr, st, bi, lp[bi])
+                else:
+                    self.havoc_loop(fr, st, bi, lp[bi])
             self.stats['blocks'] += 1
             blk = f['blocks'][bi]
             visiting = visiting | {bi}
@@ -1876,6 +1996,24 @@ class Interp:
                 # a value with one unknown bit (`x & FLAG`): the switch is a test of that bit
                 s2.events.append(('branch', single[1], (val >> single[0]) & 1, t['loc'], fr.f['name']))
             outs += self.exec_block(fr, tgt, s2, visiting)
+        # a discriminant built from a few input bits (sign-extension copies of one bit, `x >> 47` of a canonical address): when every
+        # value those bits can produce has its own arm, there is no `otherwise`
+        if varbits and all(isinstance(b, tuple) and b[0] == 'v' for _, b in varbits):
+            keys = sorted({(b[1], b[2]) for _, b in varbits})
+            if len(keys) <= 6:
+                feas = set()
+                for asg in itertools.product((0, 1), repeat=len(keys)):
+                    m = dict(zip(keys, asg))
+                    v = 0
+                    for i, b in enumerate(d.bits):
+                        if b == 1:
+                            v |= 1 << i
+                        elif b != 0:
+                            bit = m[(b[1], b[2])]
+                            v |= ((1 - bit) if b[3] else bit) << i
+                    feas.add(v)
+                if feas <= set(taken):
+                    return outs
         # otherwise arm
         s2 = st
         if name is not None and shift >= 0:
@@ -1943,8 +2081,46 @@ class Interp:
         if c.get('trait') and targs and targs[0].get('k') != 'param':
             m = self.lookup_impl(c['trait'], c['name'].split('::')[-1], targs)
             if m is not None:
-                return m, targs, True
+                return m, self.impl_generic_args(m, targs), True
+            # no impl item: the trait's provided (default) body with Self := the concrete type
+            d = self.fn.get(c['name'])
+            if d is not None and d['generics'] and d['generics'][0] == 'Self' and c['name'] not in self.opaque_fns and \
+                    any(im['trait'] == c['trait'] and _self_matches(im['self'], targs[0]) for im in self.impls):
+                return c['name'], targs, True
         return c['name'], targs, False
+
+    def impl_generic_args(self, path, targs):
+        """generic arguments of the impl method `path` when it is selected for `<targs[0] as Trait<targs[1..]>>::method::<..>`: the
+        impl's own parameters are read off by matching its Self type against the concrete one, the method's own parameters are the
+        trailing trait-call arguments"""
+        f = self.fn.get(path)
+        if f is None:
+            return targs
+        im = None
+        for x in self.impls:
+            if any(it['path'] == path for it in x['items']):
+                im = x
+                break
+        if im is None:
+            return targs
+        binding = {}
+        _unify_ty(im['self'], targs[0], binding)
+        gens = [g for g in f['generics']]
+        free = [g for g in gens if not g.startswith("'") and g not in binding]
+        tail = [t for t in targs if t.get('k') != 'lifetime']
+        tail = tail[len(tail) - len(free):] if free and len(tail) >= len(free) else []
+        if free and len(tail) != len(free):
+            return targs
+        out = []
+        it = iter(tail)
+        for g in gens:
+            if g.startswith("'"):
+                out.append({'k': 'lifetime'})
+            elif g in binding:
+                out.append(binding[g])
+            else:
+                out.append(next(it))
+        return out
 
     def lookup_impl(self, trait, method, targs):
         st = targs[0]
@@ -1956,11 +2132,16 @@ class Interp:
                 continue
             cands.append(im)
         if len(cands) > 1 and len(targs) > 1:
-            # select by the trait's own type arguments, e.g. Mapper<Size4KiB>
-            want = _ty_str(targs[1])
-            c2 = [im for im in cands if want in im['traitref']]
+            # select by the trait's own type arguments, e.g. Mapper<Size4KiB>, Sub<u64> / Sub<Page<S>>
+            c2 = [im for im in cands if 'targs' in im and len(im['targs']) <= len(targs) - 1 and
+                  all(_self_matches(a, b) for a, b in zip(im['targs'], targs[1:]))]
             if c2:
                 cands = c2
+            else:
+                want = _ty_str(targs[1])
+                c2 = [im for im in cands if want in im['traitref']]
+                if c2:
+                    cands = c2
         if len(cands) >= 1:
             for it in cands[0]['items']:
                 if it['name'] == method:
@@ -2016,17 +2197,30 @@ class Interp:
         f = self.fn.get(target)
         if f is not None and resolved and target not in self.opaque_fns:
             sub = {}
+            consts = fr.consts
             for g, a in zip(f['generics'], gargs_for(f, gargs)):
                 sub[g] = a
+                if a.get('k') == 'constarg':
+                    # a const generic argument: a literal (`2_usize`, `true`) or one of the caller's own const parameters (`MAX/#0`)
+                    v = const_arg_value(a.get('s', ''), fr.consts)
+                    if v is not None:
+                        if consts is fr.consts:
+                            consts = dict(fr.consts or {})
+                        consts[g] = v
             if self.trace_calls:
                 cid = next(self.counter)
                 st.events.append(('icall', target, tuple(args), loc, fr.f['name'], cid))
-                outs = self.run_fn(f, args, st, sub, fr.consts)
+                outs = self.run_fn(f, args, st, sub, consts)
+                if len(outs) > 1 and self.merge_calls:
+                    outs = merge_diamonds(outs, self)
                 for o in outs:
                     if o.kind == 'ret':
                         o.st.events.append(('iret', target, o.val, cid))
                 return outs
-            return self.run_fn(f, args, st, sub, fr.consts)
+            outs = self.run_fn(f, args, st, sub, consts)
+            if len(outs) > 1 and self.merge_calls:
+                outs = merge_diamonds(outs, self)
+            return outs
         # opaque: unknown callee or trait method on a type parameter
         return self.opaque_call(ctx)
 
@@ -2156,6 +2350,7 @@ class Interp:
                 ops.append({'k': 'const', 'v': self.const_val(st, fr, o['v'])})
             else:
                 ops.append({'k': k, 'dbg': o.get('dbg')})
+        Interp.ASM_TOUCHED.add((fr.f['name'], t['loc']))
         st.events.append(('asm', tpl, ops, t['opts'], t['loc'], fr.f['name'], n))
         # memory reachable through pointer operands may be written unless the block is nomem/readonly
         opts = t['opts']
@@ -2241,6 +2436,158 @@ def _literal_bool_switch(blk):
     return None
 
 
+def _mux_bit(x, b1, b0):
+    """bit that equals b1 when literal x is 1 and b0 when it is 0, if representable"""
+    if b1 == b0:
+        return b1
+    if b1 == 1 and b0 == 0:
+        return x
+    if b1 == 0 and b0 == 1:
+        return b_not(x)
+    # one side already is the literal (or its negation) it would become
+    if b1 == 1 and b0 == x:
+        return x
+    if b1 == x and b0 == 0:
+        return x
+    nx = b_not(x)
+    if b1 == 0 and b0 == nx:
+        return nx
+    if b1 == nx and b0 == 1:
+        return nx
+    return None
+
+
+def _mux_value(x, v1, v0):
+    if isinstance(v1, BV) and isinstance(v0, BV) and v1.w == v0.w and v1.signed == v0.signed:
+        bits = []
+        for a, b in zip(v1.bits, v0.bits):
+            m = _mux_bit(x, a, b)
+            if m is None:
+                return None
+            bits.append(m)
+        return BV(v1.w, bits, v1.signed)
+    if isinstance(v1, Struct) and isinstance(v0, Struct) and v1.name == v0.name and len(v1.fields) == len(v0.fields):
+        fs = []
+        for a, b in zip(v1.fields, v0.fields):
+            m = _mux_value(x, a, b)
+            if m is None:
+                return None
+            fs.append(m)
+        return Struct(v1.name, fs)
+    if isinstance(v1, Enum) and isinstance(v0, Enum) and v1.name == v0.name and v1.vi == v0.vi and v1.vi is not None and len(v1.fields) == len(v0.fields):
+        fs = []
+        for a, b in zip(v1.fields, v0.fields):
+            m = _mux_value(x, a, b)
+            if m is None:
+                return None
+            fs.append(m)
+        return Enum(v1.name, v1.vi, v1.vname, fs, v1.disc)
+    if isinstance(v1, Ptr) and isinstance(v0, Ptr) and v1.tag is None and v0.tag is None and v1.addr is not None and v0.addr is not None and repr(v1.off) == repr(v0.off):
+        a = _mux_value(x, v1.addr, v0.addr)
+        return None if a is None else Ptr(addr=a, off=v1.off)
+    return v1 if repr(v1) == repr(v0) else None
+
+
+def merge_diamonds(outs, I=None):
+    """`if x.bit(k) { v | m } else { v & !m }` and `sign_extend(v)` are the same function; the first is explored as two returning paths.
+    Two returning paths are joined into one when they assumed opposite values of ONE input bit and nothing else, had the same effects
+    (events other than the branch itself), and every value they computed (result and memory) is the same or is that bit / its negation
+    / the matching constants - i.e. when the join is exactly representable. Anything else is left alone."""
+    def sig(o):
+        return (frozenset(o.st.env.keys()), tuple(repr(e) for e in o.st.events if e[0] != 'branch'),
+                repr(o.st.rel), repr(sorted(((k, v) for k, v in o.st.facts.items() if not (isinstance(k, tuple) and k and k[0] in ('sw', 'swnot'))), key=repr)),
+                frozenset(o.st.mem.keys()))
+    changed = True
+    outs = list(outs)
+    while changed:
+        changed = False
+        groups = {}
+        for i, o in enumerate(outs):
+            if o.kind == 'ret' and not o.st.dead:
+                groups.setdefault(sig(o), []).append(i)
+        for idx in groups.values():
+            if len(idx) < 2:
+                continue
+            for ai in range(len(idx)):
+                for bi in range(ai + 1, len(idx)):
+                    o1, o2 = outs[idx[ai]], outs[idx[bi]]
+                    diff = sorted(k for k in o1.st.env if o1.st.env[k] != o2.st.env[k])
+                    if not diff:
+                        continue
+                    # one tested bit, or a group of bits tested to be all ones on one path and all zeros on the other (`x >> 47` is
+                    # 0 or 0x1ffff): the join then records that the group's bits are equal
+                    v1 = {o1.st.env[k] for k in diff}
+                    v2 = {o2.st.env[k] for k in diff}
+                    if len(v1) != 1 or len(v2) != 1 or v1 | v2 != {0, 1} or (len(diff) > 1 and I is None):
+                        continue
+                    if repr(sorted(o1.st.defs.items(), key=repr)) != repr(sorted(o2.st.defs.items(), key=repr)):
+                        continue
+                    k = diff[0]
+                    if o1.st.env[k] == 0:
+                        o1, o2 = o2, o1
+                    x = lit(k[0], k[1])
+                    val = _mux_value(x, o1.val, o2.val)
+                    if val is None:
+                        continue
+                    mem = {}
+                    ok = True
+                    for loc, v in o1.st.mem.items():
+                        m = _mux_value(x, v, o2.st.mem[loc])
+                        if m is None:
+                            ok = False
+                            break
+                        mem[loc] = m
+                    if not ok:
+                        continue
+                    stn = o1.st.clone()
+                    for kk in diff:
+                        del stn.env[kk]
+                    stn.mem = mem
+                    # value ranges: the union of what the two paths knew; switch facts: those both had
+                    rng = {}
+                    for nm in o1.st.rng:
+                        if nm in o2.st.rng:
+                            iv = sorted(list(o1.st.rng[nm]) + list(o2.st.rng[nm]))
+                            acc = []
+                            for a, b in iv:
+                                if acc and a <= acc[-1][1] + 1:
+                                    acc[-1] = (acc[-1][0], max(acc[-1][1], b))
+                                else:
+                                    acc.append((a, b))
+                            rng[nm] = acc
+                    stn.rng = rng
+                    stn.facts = {k2: v2 for k2, v2 in o1.st.facts.items() if k2 in o2.st.facts and repr(o2.st.facts[k2]) == repr(v2)}
+                    if len(diff) > 1:
+                        from .bits import eq_bit
+                        rest = tuple(lit(kk[0], kk[1]) for kk in diff[1:])
+                        if not I.assume(stn, eq_bit(rest, (x,) * len(rest)), 1) or stn.dead:
+                            continue
+                    other = set(repr(e) for e in o2.st.events)
+                    stn.events = [e for e in o1.st.events if e[0] != 'branch' or repr(e) in other]
+                    merged = Outcome(stn, 'ret', val)
+                    keep = [o for j, o in enumerate(outs) if j not in (idx[ai], idx[bi])]
+                    outs = keep + [merged]
+                    changed = True
+                    break
+                if changed:
+                    break
+            if changed:
+                break
+    return outs
+
+
+def const_arg_value(s, consts):
+    m = re.match(r'^(-?\d+)_[iu](\d+|size)$', s)
+    if m:
+        return int(m.group(1))
+    if s in ('true', 'false'):
+        return 1 if s == 'true' else 0
+    m = re.match(r'^(\w+)/#\d+$', s)
+    if m and consts and m.group(1) in consts:
+        return consts[m.group(1)]
+    return None
+
+
 def gargs_for(f, gargs):
     """generic args aligned with the function's generics list (lifetimes are listed in both)"""
     gens = f['generics']
@@ -2322,6 +2669,26 @@ def _trait_name(tr):
     return m.group(1) if m else tr
 
 
+def _unify_ty(pat, t, binding):
+    """bind the type parameters of `pat` so that it equals `t` (best effort: first binding wins)"""
+    k = pat.get('k')
+    if k == 'param':
+        binding.setdefault(pat['name'], t)
+        return
+    if k != t.get('k'):
+        return
+    if k == 'adt':
+        for a, b in zip(pat.get('args', []), t.get('args', [])):
+            _unify_ty(a, b, binding)
+    elif k in ('ref', 'rawptr'):
+        _unify_ty(pat['to'], t['to'], binding)
+    elif k == 'tuple':
+        for a, b in zip(pat.get('elems', []), t.get('elems', [])):
+            _unify_ty(a, b, binding)
+    elif k in ('array', 'slice'):
+        _unify_ty(pat['elem'], t['elem'], binding)
+
+
 def _self_matches(impl_self, t):
     if impl_self.get('k') == 'param':
         return True
@@ -2344,5 +2711,5 @@ def _arr_len(t):
     m = re.search(r'0x[0-9a-f]+', s)
     if m:
         return int(m.group(0), 16)
-    m = re.search(r'\b(\d+)\b', s)
+    m = re.search(r'\b(\d+)(?:_usize)?\b', s)
     return int(m.group(1)) if m else None
